@@ -16,7 +16,7 @@ import itertools
 
 from ..absint import TOP, Evaluator, Lin, Obj, Sym, Unmodelled
 from ..harness import foreign_ops, da_attr_models, da_method_models
-from ..xmodel import COMMON_MODELS, dimsym, make_axis, make_da, make_grid
+from ..xmodel import COMMON_MODELS, bind_by_position, dimsym, make_axis, make_da, make_grid
 from .c01 import check_pad_basic
 
 EXPLANATION = (
@@ -81,15 +81,13 @@ def run_pad(P, boundary, fill_value, widths, data=None, grid=None, other=None):
     calls = []
 
     def m_pad_basic(ev, args, kw, node):
-        b = dict(zip(["da", "grid", "padding_width", "padding", "fill_value"], args))
-        b.update(kw)
+        b = bind_by_position(ev, "padding:_pad_basic", ["da", "grid", "padding_width", "padding", "fill_value"], args, kw)
         calls.append(b)
         d = b.get("da")
         return d.with_eff(("PAD_BASIC",)) if isinstance(d, Obj) else TOP
 
     def m_pad_fc(ev, args, kw, node):
-        b = dict(zip(["da", "grid", "padding_width", "padding", "fill_value", "other_component"], args))
-        b.update(kw)
+        b = bind_by_position(ev, "padding:_pad_face_connections", ["da", "grid", "padding_width", "padding", "fill_value", "other_component"], args, kw)
         b["__face__"] = True
         calls.append(b)
         d = b.get("da")
@@ -182,8 +180,7 @@ def _sequence(ctx, P):
             seen = []
 
             def m_pad_basic(ev, args, kw, node):
-                b = dict(zip(["da", "grid", "padding_width", "padding", "fill_value"], args))
-                b.update(kw)
+                b = bind_by_position(ev, "padding:_pad_basic", ["da", "grid", "padding_width", "padding", "fill_value"], args, kw)
                 ev.events.append(("pad-basic", dict(b.get("padding") or {}), dict(b.get("fill_value") or {})))
                 d = b.get("da")
                 return d.with_eff(("PAD_BASIC",)) if isinstance(d, Obj) else TOP
@@ -225,10 +222,18 @@ def check(ctx):
     W = {Sym("AX"): (1, 0), Sym("AY"): (0, 2)}
 
     # ---------------- R02.1 per-call resolution, both arguments, every spelling
-    for arg in ("boundary", "fill_value"):
+    def same_where_it_matters(got, exp, rules, partial):
+        """Fill values compared on every axis - or, when the tree hands the padding a table of xarray.pad arguments (which carries
+        a fill value only for the axes that are filled), on the axes whose rule is 'fill'."""
+        if not isinstance(got, dict):
+            return False
+        axes = [k for k in exp if not partial or (isinstance(rules, dict) and rules.get(k) == "fill")]
+        return {k: got.get(k) for k in axes} == {k: exp[k] for k in axes}
+
+    for arg, fixed_rule in (("boundary", None), ("fill_value", None), ("fill_value", "fill")):
         for name, (value, named) in SPELLINGS[arg].items():
-            inst = f"pad({arg}={name})"
-            kw = {"boundary": None, "fill_value": None}
+            inst = f"pad({arg}={name})" + (f" with boundary={fixed_rule!r}" if fixed_rule else "")
+            kw = {"boundary": fixed_rule, "fill_value": None}
             kw[arg] = value
             try:
                 outs, calls = run_pad(P, kw["boundary"], kw["fill_value"], W)
@@ -245,13 +250,16 @@ def check(ctx):
                 exp = {Sym(a): named.get(a, DEFAULTS[arg][a]) for a in AXES}
                 key = "padding" if arg == "boundary" else "fill_value"
                 for c in calls:
+                    partial = bool(c.get("__fill_only_where_constant__"))
                     got = c.get(key)
-                    if not isinstance(got, dict) or {k: got.get(k) for k in exp} != exp:
+                    ok = ({k: got.get(k) for k in exp} == exp) if (isinstance(got, dict) and key == "padding") else same_where_it_matters(got, exp, c.get("padding"), partial)
+                    if not ok:
                         bad = f"rule in force reaching the padding is {got!r}; expected {exp!r} (the caller's value for named axes, else the axis default)"
                     other_key = "fill_value" if arg == "boundary" else "padding"
-                    oexp = {Sym(a): DEFAULTS["fill_value" if arg == "boundary" else "boundary"][a] for a in AXES}
+                    oexp = {Sym(a): (fixed_rule if (fixed_rule and arg == "fill_value") else DEFAULTS["fill_value" if arg == "boundary" else "boundary"][a]) for a in AXES}
                     ogot = c.get(other_key)
-                    if not isinstance(ogot, dict) or {k: ogot.get(k) for k in oexp} != oexp:
+                    ook = ({k: ogot.get(k) for k in oexp} == oexp) if (isinstance(ogot, dict) and other_key == "padding") else same_where_it_matters(ogot, oexp, c.get("padding"), partial)
+                    if not ook:
                         bad = bad or f"the argument that was not given resolves to {ogot!r} instead of the axis defaults {oexp!r}"
                     if c.get("padding_width") != W:
                         bad = bad or f"widths {c.get('padding_width')!r} reach the padding instead of the requested {W!r}"
